@@ -299,6 +299,46 @@ def rule_r3(chk, p, t):
 
     r.guard(cv.qualname, three)
 
+    def bracket():
+        # the bisection bracket on psi covers every transfer of less than one revolution, whatever its sense:
+        # psi = (change of eccentric anomaly)^2 < (2 pi)^2 for ellipses, and negative for hyperbolas
+        import math
+
+        lu = p.func(f"{LAM}.lambertUniversal")
+
+        def values(e):
+            """All values a constant expression (with conditional expressions) can take, or None."""
+            if isinstance(e, ast.IfExp):
+                a, b = values(e.body), values(e.orelse)
+                return None if a is None or b is None else a + b
+            try:
+                from rsa.terms import NotEvaluable, eval_small
+
+                return [float(eval_small(e, {"PI": math.pi, "pi": math.pi, "TWOPI": 2 * math.pi}))]
+            except Exception:
+                return None
+
+        first = {}
+        for n in lu.node.body:
+            if isinstance(n, ast.Assign) and isinstance(n.targets[0], ast.Name) and n.targets[0].id in ("psi_up", "psi_low") and n.targets[0].id not in first:
+                first[n.targets[0].id] = n
+        require(set(first) == {"psi_up", "psi_low"}, "lambertUniversal: initial bracket psi_up / psi_low not found", lu.node)
+        up, low = values(first["psi_up"].value), values(first["psi_low"].value)
+        cons = lu.qualname + ":bracket"
+        if up is None or low is None:
+            raise Undecided(f"initial bracket `{unparse(first['psi_up'].value)}` / `{unparse(first['psi_low'].value)}` is not a constant", first["psi_up"])
+        bad = []
+        if min(up) < 4 * math.pi**2 * (1 - 1e-12):
+            bad.append(f"psi_up = `{unparse(first['psi_up'].value)}` can be {min(up):.4g} < 4 pi^2: an elliptic arc through apoapsis sweeps more than 180 deg of eccentric anomaly even when the true-anomaly change is below 180 deg, its root lies above the bracket and the bisection returns wrong velocities silently")
+        if max(low) > -4 * math.pi:
+            bad.append(f"psi_low = `{unparse(first['psi_low'].value)}` can be {max(low):.4g} > -4 pi: fast (hyperbolic) transfers fall outside the bracket")
+        if bad:
+            r.violation(cons, "bracket:" + ";".join(b[:30] for b in bad), "; ".join(bad), lu.loc(first["psi_up"]))
+        else:
+            r.ok(cons, f"psi in [{max(low):.4g}, {min(up):.4g}] for either transfer sense", lu.loc(first["psi_up"]))
+
+    r.guard(f"{LAM}.lambertUniversal:bracket", bracket)
+
 
 def branch_corrections(fi):
     """[(name, def_stmt, if_stmt, correction_stmt)] for locals that get a plain definition and then, under an
